@@ -31,10 +31,12 @@ structure SpecSt where
   textPending : Bool := false
 
 /-- Output is suppressed while some open element has its inner content removed. -/
-def suppressed (s : SpecSt) : Bool :=
-  s.openEls.any fun o => match o.edit with
-    | some e => e.innerRemoved
-    | none => false
+def elRemoved (o : OpenEl) : Bool :=
+  match o.edit with
+  | some e => e.innerRemoved
+  | none => false
+
+def suppressed (s : SpecSt) : Bool := s.openEls.any elRemoved
 
 def emit (s : SpecSt) (b : Bytes) : Bytes := if suppressed s then [] else b
 
@@ -69,14 +71,11 @@ def anyOfKind (H : List Handler) (s : SpecSt) (kind : Script → Bool) : Bool :=
     | some h => kind h.script && isActive H s i
     | none => false
 
-def cMut (ops : List CommentOp) : List MutOp := ops.filterMap fun | .mut o => some o | _ => none
-def tMut (ops : List TextOp) : List MutOp := ops.filterMap fun | .mut o => some o | _ => none
-def eMut (ops : List EndTagOp) : List MutOp := ops.filterMap fun | .mut o => some o | _ => none
 
 /-- A text chunk through the active text handlers. -/
 def textChunk (H : List Handler) (enc : Enc) (s : SpecSt) (text : Bytes) : SpecSt × Bytes :=
   let r := collectAux scriptText (isActive H s) H 0 s.inv
-  ({ s with inv := r.1 }, emit s (edit enc (textOwn enc text r.2) (tMut r.2)))
+  ({ s with inv := r.1 }, emit s (edit enc (textOwn enc text r.2) (textMutOps r.2)))
 
 def flushText (H : List Handler) (enc : Enc) (s : SpecSt) : SpecSt × Bytes :=
   if s.textPending then textChunk H enc { s with textPending := false } [] else (s, [])
@@ -102,12 +101,12 @@ def step (H : List Handler) (enc : Enc) (s : SpecSt) : SrcToken → SpecSt × By
     let s := f.1
     if anyOfKind H s Script.isComment then
       let r := collectAux scriptComment (isActive H s) H 0 s.inv
-      ({ s with inv := r.1 }, f.2 ++ emit s (edit enc (commentOwn raw r.2) (cMut r.2)))
+      ({ s with inv := r.1 }, f.2 ++ emit s (edit enc (commentOwn raw r.2) (commentMutOps r.2)))
     else (s, f.2 ++ emit s raw)
   | .doctype raw =>
     let f := flushText H enc s
     let s := f.1
-    if anyOfKind H s (fun | .doctype _ => true | _ => false) then
+    if anyOfKind H s Script.isDoctype then
       let r := collectAux scriptDoctype (isActive H s) H 0 s.inv
       ({ s with inv := r.1 }, f.2 ++ emit s (if r.2.isEmpty then raw else []))
     else (s, f.2 ++ emit s raw)
@@ -148,7 +147,7 @@ def step (H : List Handler) (enc : Enc) (s : SpecSt) : SrcToken → SpecSt × By
       let o2 := match s.openEls[idx]? with
         | some target =>
           (match target.edit with
-           | some e => emit s' (edit enc (endTagOwn raw e.endTagScript) (eMut e.endTagScript))
+           | some e => emit s' (edit enc (endTagOwn raw e.endTagScript) (endMutOps e.endTagScript))
            | none => emit s' raw)
         | none => []
       (s', f.2 ++ o1 ++ o2)
